@@ -122,3 +122,21 @@ Definition validate_name (n : bytes) : bool :=
   | [] => false
   | c :: r => (is_alpha c || (c =? 42)) && forallb name_rest_ok r
   end.
+
+(* Setting::getPath(): __constructPath *)
+Fixpoint cpp_path_from (first : bool) (cur : setting) (ip : ipath) : bytes :=
+  match ip with
+  | [] => []
+  | i :: q =>
+      match nth_error (s_kids cur) i with
+      | Some k =>
+          (if first then [] else [46]) ++
+          (match s_name k with
+           | Some nm => nm
+           | None => [91] ++ show_dec (Z.of_nat i) ++ [93]
+           end) ++ cpp_path_from false k q
+      | None => []
+      end
+  end.
+Definition cpp_path (root : setting) (ip : ipath) : bytes := cpp_path_from true root ip.
+
